@@ -35,10 +35,12 @@ def sh(cmd, cwd=None, timeout=3600):
 
 
 # --------------------------------------------------------------------- builds
-def build_lean(module):
-    """Build the property module (all its proofs) and the driver."""
+def build_lean(modules):
+    """Build the property modules (all their proofs) and the driver."""
+    if isinstance(modules, str):
+        modules = [modules]
     t0 = time.time()
-    rc, out = sh(["lake", "build", module, "rxdriver"], cwd=LEAN)
+    rc, out = sh(["lake", "build"] + list(modules) + ["rxdriver"], cwd=LEAN)
     return rc == 0, out, time.time() - t0
 
 
@@ -68,12 +70,14 @@ def theorems_of(module):
     return [prefix + n for n in re.findall(r"^theorem\s+(\S+)", src, flags=re.M)]
 
 
-def audit_axioms(module, pid):
-    """`#print axioms` for every theorem of the property module."""
-    thms = theorems_of(module)
+def audit_axioms(modules, pid):
+    """`#print axioms` for every theorem of the property modules."""
+    if isinstance(modules, str):
+        modules = [modules]
+    thms = [t for m in modules for t in theorems_of(m)]
     WORK.mkdir(exist_ok=True)
     f = WORK / f"Audit_{pid}.lean"
-    f.write_text(f"import {module}\n" + "".join(f"#print axioms {t}\n" for t in thms))
+    f.write_text("".join(f"import {m}\n" for m in modules) + "".join(f"#print axioms {t}\n" for t in thms))
     rc, out = sh(["lake", "env", "lean", str(f)], cwd=LEAN)
     res = {}
     # output: "'Rx.C03_chain' depends on axioms: [propext, ...]" or "... does not depend on any axioms"
